@@ -20,7 +20,39 @@ LEVEL = "model_checking"
 
 CONFIGS = [("PVL", {}), ("ODL", {}), ("PDS3", {}), ("ISIS", {}),
            ("PDS3", {"convert_group_to_object": False}),
-           ("PVL", {"aggregation_end": False, "end_delimiter": False})]
+           ("PVL", {"aggregation_end": False, "end_delimiter": False}),
+           ("dumps", {}),                  # the convenience function pvl.dumps(m) itself
+           ("dumps", {"indent": 4})]
+
+
+class DumpsRoute:
+    """pvl.dumps(module, **kw) seen as an 'encoder' with an encode() method"""
+    def __init__(self, kw):
+        self.kw = kw
+
+    def encode(self, m):
+        import pvl
+        return pvl.dumps(m, **self.kw)
+
+
+def make(encname, cfg):
+    if encname == "dumps":
+        return DumpsRoute(cfg)
+    return impl.make_encoder(encname, **cfg)
+
+
+def other_dumps():
+    """what else a process may do with pvl.dumps between two dumps of one module"""
+    import pvl
+    other = impl.PVLModule([("g", impl.PVLGroup([("a", 1)])), ("s", "x y")])
+    for kw in ({"indent": 6}, {"width": 30}, {"convert_group_to_object": False}, {"tab_replace": 0},
+               {"encoder": impl.ISISEncoder()}, {"grammar": impl.PVLGrammar()}, {"newline": "\n"},
+               {"aggregation_end": False}, {"decoder": impl.OmniDecoder()}):
+        try:
+            pvl.dumps(other.copy(), **kw)
+        except Exception:  # noqa: BLE001
+            pass
+        yield kw
 
 
 def specials():
@@ -116,8 +148,8 @@ def call(enc, m):
 def check_case(case):
     items, encname, cfg, as_dict = case["items"], case["enc"], case["cfg"], case.get("dict", False)
     m = build(items, as_dict)
-    enc = impl.make_encoder(encname, **cfg)
-    allow = encname == "PDS3"
+    enc = make(encname, cfg)
+    allow = encname in ("PDS3", "dumps")
     s0 = snapshot(m)
     r1 = call(enc, m)
     s1 = snapshot(m)
@@ -133,6 +165,14 @@ def check_case(case):
     # (add_quantity_cls) and used
     if case.get("interfere"):
         c16.interfere()
+        for kw in other_dumps():
+            # after each single other call: which call came last decides what a shared slot holds
+            rk = call(enc, m)
+            if rk != r1:
+                out.append({"case": case, "diagnosis": "dump-not-repeatable-after-other-use:" + encname,
+                            "detail": "after pvl.dumps(other, %s): first %r now %r"
+                                      % (", ".join(sorted(kw)), str(r1)[:160], str(rk)[:160])})
+                return out
         # ... and the same encoder instance is used for other modules in between, some of which it
         # refuses; after each of them the module under test must still be written the same way
         for mi, mk in enumerate(c16.modules()):
@@ -157,7 +197,7 @@ def check_case(case):
                     "detail": "first %r second %r" % (str(r1)[:200], str(r2)[:200])})
         return out
     # a fresh encoder on the (possibly converted) object gives the same text as well
-    r3 = call(impl.make_encoder(encname, **cfg), m)
+    r3 = call(make(encname, cfg), m)
     if r3 != r1:
         out.append({"case": case, "diagnosis": "dump-not-repeatable-fresh-encoder:" + encname,
                     "detail": "first %r third %r" % (str(r1)[:200], str(r3)[:200])})
